@@ -50,6 +50,9 @@ def collect(prop, res):
             j['layer'] = 'correspondence' if i['what'] in CORR_WHATS else 'oracle'
             j['replay'] = dict(how='runlevel', cfg=cfg, what=i['what'])
             issues.append(j)
+        if r.get('light') and not r['light'].get('same', True):
+            issues.append(dict(what='recorder-changes-the-run', layer='correspondence', cfg_kind=cfg['kind'], detail=r['light'], known=None,
+                               replay=dict(how='runlevel', cfg=cfg, what='recorder-changes-the-run')))
         for i in r['machine']['issues']:
             if prop in owners_of_machine_issue(i):
                 j = dict(i)
@@ -656,8 +659,12 @@ def check(ctx):
     if extra:
         drv = common.Driver()
         try:
+            n_light = 0
             for c in extra:
-                res['runs'].append(runpass.analyse_run(c, drv, props=[prop]))
+                # (a share of the extra runs is repeated without the recorder: all GP runs, every third other one)
+                lt = prop in ('C01', 'C02', 'C07', 'C12', 'C20') and (c['kind'] == 'GP' or n_light % 3 == 0)
+                n_light += 1
+                res['runs'].append(runpass.analyse_run(c, drv, props=[prop], light=lt))
         finally:
             drv.close()
     issues = collect(prop, res)
@@ -780,9 +787,12 @@ def replay(prop, payload):
         return bool(plain_gp_issues([payload['seed']]))
     drv = common.Driver()
     try:
-        r = runpass.analyse_run(payload['cfg'], drv, props=[prop])
+        w_ = payload.get('what') or ''
+        r = runpass.analyse_run(payload['cfg'], drv, props=[prop], light=(w_.startswith('light-') or w_ == 'recorder-changes-the-run'))
     finally:
         drv.close()
+    if (payload.get('what') or '') == 'recorder-changes-the-run':
+        return bool(r.get('light')) and not r['light'].get('same', True)
     want = payload.get('what')
     got = [i for i in r['issues'][prop] if not i.get('known')]
     if want and want.startswith('machine:'):
